@@ -1217,6 +1217,9 @@ Returns:
                     setattr(result, k, copy.deepcopy(v, memo))
                 except TypeError:
                     setattr(result, k, dill.copy(v))
+        # the copied objective is bound to copies of the counter and monitors
+        # that are not the ones held by the new solver, so have it rebuilt
+        result._live = False
         return result
 
     def _is_new(self):
